@@ -509,17 +509,23 @@ impl<'a> Interpreter<'a> {
                     }
 
                     let mut working = String::new();
+                    let mut failed = None;
                     for seg in segments.into_iter().rev() {
-                        if let CelValue::String(s) = seg {
-                            working.push_str(&s)
-                        } else {
-                            return Err(CelError::Runtime(
-                                "Expected string from format string specifier".to_string(),
-                            ));
+                        match seg {
+                            CelValue::String(s) => working.push_str(&s),
+                            // a segment that fails makes the format string fail the same way
+                            CelValue::Err(_) => {
+                                failed.get_or_insert(seg);
+                            }
+                            _ => {
+                                return Err(CelError::Runtime(
+                                    "Expected string from format string specifier".to_string(),
+                                ));
+                            }
                         }
                     }
 
-                    stack.push_val(CelValue::String(working));
+                    stack.push_val(failed.unwrap_or(CelValue::String(working)));
                 }
             };
         }
